@@ -436,10 +436,189 @@ def _find_matching_deton(tr, fn):
     tr.facts.append("findMatching: vwTry > vJ  =>  result = matchDeton(vwTry)")
 
 
+
+def _check_ivp(call, fun, start, y0, events, span_end_max, what):
+    """structural facts of a solve_ivp call (fail closed)"""
+    _expect(len(call.args) == 3 and _is_attr(call.args[0], fun), what + ": integrates " + fun)
+    _expect(isinstance(call.args[1], (ast.List, ast.Tuple)) and len(call.args[1].elts) == 2
+            and ast.unparse(call.args[1].elts[0]) == start, what + ": starts at " + start)
+    end = pyrx.const_value(call.args[1].elts[1])
+    _expect(end is not None and 0 < end <= span_end_max,
+            what + ": runs down to a tiny positive velocity")
+    _expect(ast.unparse(call.args[2]) == y0, what + ": initial state " + y0)
+    ev = _kw(call, "events")
+    if events is None:
+        _expect(ev is None, what + ": no terminal event")
+    else:
+        _expect(ev is not None and ast.unparse(ev) == events, what + ": events=" + events)
+    _expect(_kw(call, "rtol") is not None and _is_attr(_kw(call, "rtol"), "self.rtol"),
+            what + ": rtol=self.rtol")
+    at = _kw(call, "atol")
+    _expect(at is not None and pyrx.const_value(at) == 0, what + ": atol=0")
+    extra = [k.arg for k in call.keywords if k.arg not in ("events", "rtol", "atol", "args")]
+    _expect(not extra, what + ": no other keywords (%r)" % extra)
+
+
+def _kappa_plan(tr, fn):
+    """Head of efficiencyFactor: which waves are integrated and from which state.  The
+    solve_ivp/simpson blocks are replaced by assignments of (flag, start v, start xi, start T);
+    the shape of the replaced calls is checked structurally."""
+    body = fn.body
+    first = [st for st in body if isinstance(st, ast.Assign) and isinstance(st.value, ast.Call)
+             and _is_attr(st.value.func, "self.findMatching")]
+    _expect(len(first) == 1 and _norm(ast.unparse(first[0])) == "vp,vm,Tp,Tm=self.findMatchingvw",
+            "efficiencyFactor: vp, vm, Tp, Tm = self.findMatching(vw)")
+    tr.facts.append("efficiencyFactor integrates from the state returned by self.findMatching(vw)")
+    ifs = [st for st in body if isinstance(st, ast.If)]
+    _expect(len(ifs) == 2, "efficiencyFactor: two top-level if-blocks (shock wave, rarefaction)")
+    ret = body[-1]
+    _expect(isinstance(ret, ast.Return) and _norm(ast.unparse(ret.value)) == "kappaSW+kappaRW",
+            "efficiencyFactor returns kappaSW + kappaRW")
+    sw, rw = ifs
+    # --- shock wave block
+    inner = [st for st in sw.body if isinstance(st, ast.If)]
+    _expect(len(inner) == 1 and not inner[0].orelse and not sw.orelse,
+            "shock-wave block: one inner guard, no else")
+    term = [st for st in sw.body if isinstance(st, ast.Assign) and
+            ast.unparse(st.targets[0]) == "shock.terminal"]
+    _expect(len(term) == 1 and isinstance(term[0].value, ast.Constant) and
+            term[0].value.value is True, "efficiencyFactor: shock.terminal = True")
+    ivp = [st for st in inner[0].body if isinstance(st, ast.Assign) and
+           isinstance(st.value, ast.Call) and ast.unparse(st.value.func) == "solve_ivp"]
+    _expect(len(ivp) == 1, "one solve_ivp in the shock-wave block")
+    _check_ivp(ivp[0].value, "self.shockDE", "vpcent", "xi0T0", "shock",
+               pyrx.Fraction(1, 10 ** 6), "efficiencyFactor shock wave")
+    _expect(_kw(ivp[0].value, "args") is None, "shock wave: default shockWave=True")
+    # --- rarefaction block
+    _expect(not rw.orelse, "rarefaction block has no else")
+    ivr = [st for st in rw.body if isinstance(st, ast.Assign) and
+           isinstance(st.value, ast.Call) and ast.unparse(st.value.func) == "solve_ivp"]
+    _expect(len(ivr) == 1, "one solve_ivp in the rarefaction block")
+    _check_ivp(ivr[0].value, "self.shockDE", "vmcent", "xi0T0", None,
+               pyrx.Fraction(1, 10 ** 6), "efficiencyFactor rarefaction wave")
+    _expect(ast.unparse(_kw(ivr[0].value, "args")) == "(False,)", "rarefaction: args=(False,)")
+
+    def plan(prefix, stmts_before, startname):
+        src = ("%sOn = 1\n%sV = %s\n%sXi = xi0T0[0]\n%sT = xi0T0[1]" % (
+            prefix, prefix, startname, prefix, prefix))
+        return stmts_before + ast.parse(src).body
+    sw_pre = [st for st in inner[0].body[:inner[0].body.index(ivp[0])]]
+    rw_pre = [st for st in rw.body[:rw.body.index(ivr[0])]]
+    sw_keep = [st for st in sw.body if not isinstance(st, (ast.FunctionDef, ast.If)) and
+               st is not term[0]]
+    new_inner = ast.If(test=inner[0].test, body=plan("sw", sw_pre, "vpcent"), orelse=[])
+    new_sw = ast.If(test=sw.test, body=sw_keep + [new_inner], orelse=[])
+    new_rw = ast.If(test=rw.test, body=plan("rw", rw_pre, "vmcent"), orelse=[])
+    init = ast.parse("swOn = 0\nswV = 0\nswXi = 0\nswT = 0\nrwOn = 0\nrwV = 0\nrwXi = 0\n"
+                     "rwT = 0").body
+    result = ast.parse("((swOn, swV, swXi, swT), (rwOn, rwV, rwXi, rwT))", mode="eval").body
+    stmts = init + [new_sw, new_rw]
+    for st in stmts:
+        for n in ast.walk(st):
+            if not hasattr(n, "lineno"):
+                n.lineno = fn.lineno
+        ast.fix_missing_locations(st)
+    for n in ast.walk(result):
+        n.lineno = fn.lineno
+    params = [("vw", "R"), ("vp", "R"), ("vm", "R"), ("Tp", "R"), ("Tm", "R")]
+    return tr.define("kappaPlan", params, stmts, result=result, span=fn,
+                     closures={"shock": "shock_kappa e"})
+
+
+def _shoot_residual(tr, fn):
+    """deflagration/hybrid branch of findMatching: the closure handed to the root finder, and
+    the control flow around it (structural, fail closed)"""
+    first = [st for st in fn.body if isinstance(st, ast.If)][0]
+    els = first.orelse
+    nested = [n for st in els for n in ast.walk(st)
+              if isinstance(n, (ast.FunctionDef, ast.Lambda))]
+    inner = set()
+    for d in nested:
+        for n in ast.walk(d):
+            if n is not d:
+                inner.add(id(n))
+    rets = sorted((n for st in els for n in ast.walk(st)
+                   if isinstance(n, ast.Return) and id(n) not in inner), key=lambda n: n.lineno)
+    _expect([_norm(ast.unparse(r.value)) for r in rets] ==
+            ["self.template.findMatchingvwTemplate"],
+            "findMatching (deflagration/hybrid): the only early return is the template fallback")
+    fb = rets[0]
+    # the fallback sits in the no-sign-change branch, guarded by `extremum.fun > 0`
+    guards = sorted((n for st in els for n in ast.walk(st) if isinstance(n, ast.If) and
+                     any(fb is m for m in ast.walk(n))), key=lambda n: n.lineno)
+    _expect(len(guards) >= 2 and ast.unparse(guards[-1].test) == "extremum.fun > 0" and
+            ast.unparse(guards[-2].test) == "shockTnuclDiffMin * shockTnuclDiffMax <= 0" and
+            any(fb is m for st in guards[-2].orelse for m in ast.walk(st)),
+            "template fallback only when no sign change and the extremum does not cross zero")
+    last = els[-1]
+    _expect(isinstance(last, ast.Assign) and _norm(ast.unparse(last)) ==
+            "vp,vm,Tp,Tm=self.matchDeflagOrHybvwTry,sol.root",
+            "findMatching returns matchDeflagOrHyb(vwTry, sol.root)")
+    sols = [n for st in els for n in ast.walk(st) if isinstance(n, ast.Assign) and
+            ast.unparse(n.targets[0]) == "sol"]
+    _expect(len(sols) == 2, "two assignments to sol")
+    for a in sols:
+        c = a.value
+        _expect(isinstance(c, ast.Call) and ast.unparse(c.func) == "root_scalar" and
+                ast.unparse(c.args[0]) == "shockTnuclDiff" and
+                _kw(c, "bracket") is not None and
+                ast.unparse(_kw(c, "bracket").elts[0]) == "vpmin" and
+                _is_attr(_kw(c, "xtol"), "self.atol") and _is_attr(_kw(c, "rtol"), "self.rtol"),
+                "sol = root_scalar(shockTnuclDiff, bracket=[vpmin, .], xtol=self.atol, "
+                "rtol=self.rtol)")
+    kinds = [type(st).__name__ for st in els if not (isinstance(st, ast.Expr))]
+    _expect(kinds == ["Assign", "Assign", "FunctionDef", "Assign", "Assign", "If", "If",
+                      "Assign"],
+            "statement sequence of the deflagration/hybrid branch of findMatching: %r" % kinds)
+    _expect(_norm(ast.unparse(els[0])) == "vpmin=self.vBracketLow", "vpmin = self.vBracketLow")
+    tr.facts.append("findMatching (vw <= vJ): v+ = root of shockTnuclDiff on [vBracketLow, .] "
+                    "unless no sign change and no crossing extremum (template fallback); no "
+                    "other return")
+    txt, used = tr.closure_def("findMatching", "shockTnuclDiff", "shootResidual")
+    _expect(used == ["vwTry", "vpTry"], "shockTnuclDiff depends on (vwTry, vpTry): %r" % used)
+    return txt
+
+
+def _solve_shock_tail(tr, fn):
+    """solveHydroShock after TiiShock: every root finder call works on TiiShock and the
+    method returns the root (or raises when not converged)"""
+    calls = [n for n in ast.walk(fn) if isinstance(n, ast.Call) and
+             ast.unparse(n.func) == "root_scalar"]
+    _expect(len(calls) == 2 and all(ast.unparse(c.args[0]) == "TiiShock" for c in calls),
+            "solveHydroShock: both root_scalar calls find a zero of TiiShock")
+    methods = sorted(ast.unparse(_kw(c, "method")) for c in calls)
+    _expect(methods == ["'brentq'", "'secant'"], "brentq on a bracket, else secant")
+    for c in calls:
+        _expect(_is_attr(_kw(c, "xtol"), "self.atol") and _is_attr(_kw(c, "rtol"), "self.rtol"),
+                "solveHydroShock root finders use xtol=self.atol, rtol=self.rtol")
+    targets = set()
+    for n in ast.walk(fn):
+        if isinstance(n, ast.Assign) and n.value in calls:
+            targets.add(ast.unparse(n.targets[0]))
+    _expect(targets == {"TnRootResult"}, "both results are stored in TnRootResult")
+    rets = [n for n in ast.walk(fn) if isinstance(n, ast.Return) and not any(
+        n in ast.walk(d) for d in fn.body if isinstance(d, ast.FunctionDef))]
+    _expect(len(rets) == 1 and ast.unparse(rets[0].value) == "float(TnRootResult.root)",
+            "solveHydroShock returns float(TnRootResult.root)")
+    guard = fn.body[-2]
+    _expect(isinstance(guard, ast.If) and ast.unparse(guard.test) ==
+            "not TnRootResult.converged" and isinstance(guard.body[0], ast.Raise),
+            "solveHydroShock raises when the root finder did not converge")
+    tr.facts.append("solveHydroShock: returns the root of TiiShock (brentq on [Tmin, Tmax] if "
+                    "bracketed, else secant from (Tnucl, TmShock)); raises if not converged")
+
+
+HYDRO_ATTRS_C03 = HYDRO_ATTRS + ["vJ"]
+THERMO_C03 = THERMO + [
+    Pattern("self.matchDeflagOrHyb(_0, _1)", "matchAt", "R -> R -> R * R * R * R"),
+    Pattern("self.solveHydroShock(_0, _1, _2)", "shockTn", "R -> R -> R -> R"),
+]
+
+
 def generate_c03(src_h, src_t, src_helpers):
     modfuns = helper_functions(src_helpers, ["gammaSq", "boostVelocity"])
-    tr = HydroTranslator(src_h, "Hydrodynamics", HYDRO_ATTRS, THERMO, [], modfuns=modfuns,
-                         booleans=["shockWave"])
+    tr = HydroTranslator(src_h, "Hydrodynamics", HYDRO_ATTRS_C03, THERMO_C03, [],
+                         modfuns=modfuns, booleans=["shockWave"])
     defs = _helpers_text(tr, modfuns)
     defs.append(tr.method_def("shockDE", types={"xiAndT": "R * R"}))
     txt, used = tr.closure_def("solveHydroShock", "shock", "shock",
@@ -462,8 +641,11 @@ def generate_c03(src_h, src_t, src_helpers):
     defs.append(txt2)
     defs += _kappa(tr, eff, "SW")
     defs += _kappa(tr, eff, "RW")
+    defs.append(_kappa_plan(tr, eff))
     defs.append(_deton_front(tr, tr.fn["matchDeton"]))
     _find_matching_deton(tr, tr.fn["findMatching"])
+    defs.append(_shoot_residual(tr, tr.fn["findMatching"]))
+    _solve_shock_tail(tr, tr.fn["solveHydroShock"])
 
     tt = HydroTranslator(src_t, "HydrodynamicsTemplateModel", TEMPLATE_ATTRS, [], [],
                          prefix="t_", modfuns=modfuns, booleans=["shockWave"])
@@ -623,17 +805,67 @@ def findvwlte_facts(src_h):
     return facts, consts
 
 
-def generate_lte_facts(src_h):
-    """Coq constants extracted from Hydrodynamics.findvwLTE (offsets of the bracket ends)"""
-    facts, consts = findvwlte_facts(src_h)
+def nucleation_temperature_reads(src, cls_name):
+    """Def-use fact: where the methods of `cls_name` read a nucleation temperature.
+    Returns (own, foreign): own = [(method, number of reads of self.Tnucl)], foreign = every
+    other read of an attribute called Tnucl outside __init__ (e.g. self.thermodynamics.Tnucl:
+    a second source that can differ from the copy taken when the solver was built), plus any
+    store to self.Tnucl outside __init__."""
+    tree = ast.parse(src)
+    cls = [n for n in tree.body if isinstance(n, ast.ClassDef) and n.name == cls_name]
+    _expect(cls, "class " + cls_name)
+    own, foreign = [], []
+    init_ok = False
+    for fn in cls[0].body:
+        if not isinstance(fn, ast.FunctionDef):
+            continue
+        count = 0
+        for n in ast.walk(fn):
+            if not (isinstance(n, ast.Attribute) and n.attr == "Tnucl"):
+                continue
+            is_self = isinstance(n.value, ast.Name) and n.value.id == "self"
+            if fn.name == "__init__":
+                if is_self and isinstance(n.ctx, ast.Store):
+                    init_ok = True
+                continue
+            if is_self and isinstance(n.ctx, ast.Load):
+                count += 1
+            else:
+                foreign.append("%s.%s line %d: %s%s" % (
+                    cls_name, fn.name, n.lineno, ast.unparse(n),
+                    " (store)" if isinstance(n.ctx, ast.Store) else ""))
+        if count:
+            own.append(("%s.%s" % (cls_name, fn.name), count))
+    _expect(init_ok, "%s.__init__ stores self.Tnucl" % cls_name)
+    return own, foreign
 
+
+def generate_lte_facts(src_h, src_t=None):
+    """Coq constants extracted from Hydrodynamics.findvwLTE (offsets of the bracket ends) and
+    the def-use fact about the nucleation temperature"""
+    facts, consts = findvwlte_facts(src_h)
+    own, foreign = nucleation_temperature_reads(src_h, "Hydrodynamics")
+    if src_t is not None:
+        o2, f2 = nucleation_temperature_reads(src_t, "HydrodynamicsTemplateModel")
+        own, foreign = own + o2, foreign + f2
     def qlit(fr):
         return "(%d # %d)" % (fr.numerator, fr.denominator)
-    text = ("From Coq Require Import QArith.\n"
+
+    def slit(x):
+        return '"%s"%%string' % x.replace('"', "'")
+    text = ("From Coq Require Import QArith String List.\nImport ListNotations.\n"
             "(* generated from Hydrodynamics.findvwLTE: vmax = vJ - lte_epsJ;  after the shock "
             "root: vmax = root - lte_epsShock *)\n"
-            "Definition lte_epsJ : Q := %s.\nDefinition lte_epsShock : Q := %s.\n" % (
-                qlit(consts["epsJ"]), qlit(consts["epsShock"])))
+            "Definition lte_epsJ : Q := %s.\nDefinition lte_epsShock : Q := %s.\n"
+            "(* methods reading the nucleation temperature as self.Tnucl (number of reads) *)\n"
+            "Definition tnucl_own_reads : list (string * nat) :=\n  [%s].\n"
+            "(* every OTHER read of a nucleation temperature outside __init__ *)\n"
+            "Definition tnucl_foreign_reads : list string :=\n  [%s].\n" % (
+                qlit(consts["epsJ"]), qlit(consts["epsShock"]),
+                ";\n   ".join("(%s, %d%%nat)" % (slit(m), c) for m, c in own),
+                ";\n   ".join(slit(f) for f in foreign)))
+    facts["tnucl_own_reads"] = own
+    facts["tnucl_foreign_reads"] = foreign
     return text, facts
 
 
